@@ -124,6 +124,18 @@ func (t *verifC19Tx) simpleVote() uint64 {
 	return 0
 }
 
+// inclAny: the include list is empty or the transaction mentions one of its accounts (0/1).
+func (f *verifC19FilterSpec) inclAny(t *verifC19Tx) uint64 {
+	if f.nilFilter || len(f.incl) == 0 {
+		return 1
+	}
+	any := uint64(0)
+	for _, a := range f.incl {
+		any |= t.mentions(verifC19Last(a))
+	}
+	return any
+}
+
 // matches is the reference predicate of the property (0/1).
 func (f *verifC19FilterSpec) matches(t *verifC19Tx) uint64 {
 	if f.nilFilter {
@@ -136,13 +148,7 @@ func (f *verifC19FilterSpec) matches(t *verifC19Tx) uint64 {
 	if !f.fUnset {
 		m &= verifC19B(f.failed) | (1 ^ verifC19B(t.failed))
 	}
-	if len(f.incl) > 0 {
-		any := uint64(0)
-		for _, a := range f.incl {
-			any |= t.mentions(verifC19Last(a))
-		}
-		m &= any
-	}
+	m &= f.inclAny(t)
 	for _, a := range f.excl {
 		m &= 1 ^ t.mentions(verifC19Last(a))
 	}
@@ -224,7 +230,7 @@ func verifC19RunScan(oblig string, f *verifC19FilterSpec, withGsfa, openEnded bo
 		prev = id
 		t := verifC19.txs[id]
 		verifAssert(verifC19.slots[t.slotIx].outcome == verifC19Found, oblig+": transaction of a slot without block")
-		verifAssert(len(r.Transaction.Meta) == 1 && int(r.Transaction.Meta[0]) == id, oblig+": meta of another transaction")
+		verifAssert(len(r.Transaction.Meta) == 1 && int(r.Transaction.Meta[0]) == id|0x80, oblig+": meta of another transaction")
 		verifAssert(r.Transaction.Index != nil && *r.Transaction.Index == uint64(t.pos), oblig+": wrong position index")
 		verifAssert(r.BlockTime == verifC19BlockTime(verifC19.start+uint64(t.slotIx)), oblig+": wrong block time")
 		sent[id] = 1
@@ -248,6 +254,7 @@ func verifC19RunScan(oblig string, f *verifC19FilterSpec, withGsfa, openEnded bo
 		}
 	}
 	verifAssert(eqAll|neAll == 1, oblig+": the streamed set is neither the set selected by the filter nor its complement")
+	verifReach("checked-up-to-polarity")
 	verifKnownFinding("C19-S16-filter-polarity", len(exam) > 0)
 	verifAssert(eqAll == 1, oblig+": the streamed set is not the set selected by the filter")
 
